@@ -96,6 +96,15 @@ fn run(case: &Val) -> Val {
         std::env::set_var(&k, &v);
         names.push(k);
     }
+    // 7th field: variables whose value is not valid UTF-8 (`std::env::var` fails on them: not set, for the crate)
+    if c.len() > 6 {
+        use std::os::unix::ffi::OsStrExt;
+        for nm in c[6].l() {
+            let k = text_of(nm);
+            std::env::set_var(&k, std::ffi::OsStr::from_bytes(b"raw\xffvalue"));
+            names.push(k);
+        }
+    }
     let _guard = EnvGuard(names);
 
     let root = tempfile::tempdir().expect("tempdir");
